@@ -216,9 +216,19 @@ class BreakpointHandler:
         @return the message box body for the debug-action query, for the current ip.
         """
         address = self.get_address_str(ip)
-        flip = self.get_address_str(mem.get_word(ip))
-        jump = self.get_address_str(mem.get_word(ip + mem.memory_width))
+        flip = self._get_word_address_str(mem, ip)
+        jump = self._get_word_address_str(mem, ip + mem.memory_width)
         return f'Address {address}.\n\n{op_counter} ops executed.\n\nflip {flip}.\n\njump {jump}.'
+
+    def _get_word_address_str(self, mem: fjm_reader.Reader, word_bit_address: int) -> str:
+        """
+        the pretty address-string of the word at word_bit_address - or a note if it can't be read
+        (showing the pause message must never end the run: the op itself will report the memory error).
+        """
+        try:
+            return self.get_address_str(mem.get_word(word_bit_address))
+        except FlipJumpException:
+            return '<unreadable - outside the program memory>'
 
     def handle_read_memory(self, target: str, mem: fjm_reader.Reader) -> None:
         """
